@@ -3,13 +3,15 @@
 //   toy dekker fence=<0|1>       store-buffering litmus: both threads reading 0 is only possible without the fences, under TSO
 //   toy condwait bug=<0|1>       waiter checks the flag BEFORE registering itself -> lost wake-up -> DEADLOCK
 //   toy ticket bug=<0|1>         a ticket lock where thread 0 takes two tickets and serves one -> SPIN-FIXPOINT
+//   toy probe bug=<0|1>          linear probing over a FULL 4-slot table for an absent key: a loop without yield or pause that only reads -> read-only livelock;
+//                                bug=0: a long but finite read-only walk over 300 000 distinct words (must stay quiet)
 //   toy guard                    two threads enter a function-local static initialiser concurrently (scheduler-aware guards)
 #include "../engine/drv/drv.h"
 const char* H_PROP = "SELFTEST";
 bool H_TSO = true;
 std::string h_gen(Src& s) {
     std::string w = " W" + std::to_string(s.range(0, 4)) + " W" + std::to_string(s.range(0, 4));
-    for (const char* k : { "dekker0", "dekker1", "condwait0", "condwait1", "ticket0", "ticket1", "guard" })
+    for (const char* k : { "dekker0", "dekker1", "condwait0", "condwait1", "ticket0", "ticket1", "guard", "probe0", "probe1" })
         if (drv_flag((std::string("--toy-") + k).c_str())) { std::string n = k; bool dig = isdigit(n.back()); return "toy " + (dig ? n.substr(0, n.size() - 1) + " v=" + n.back() : n + " v=0") + w + "\n"; }
     return "toy dekker v=1" + w + "\n";
 }
@@ -24,6 +26,11 @@ static void locker(void* p) {
     if (in_cs++) vs_violation("TOY-EXCLUSION", "two threads in the ticket lock"); vs_work(2); in_cs--;
     serving.store(t + 1);
 }
+static std::atomic<int> tab[4]; static std::atomic<int>* big = nullptr;
+static void prober(void*) {
+    if (v) { for (unsigned i = 0;; i = (i + 1) & 3) { int k = tab[i].load(std::memory_order_relaxed); if (k == 0 || k == 99) break; } }       // planted: no empty slot, key 99 absent
+    else { long sum = 0; for (int r = 0; r < 3; r++) for (int i = 0; i < 300000; i++) sum += big[i].load(std::memory_order_relaxed); if (sum != 0) vs_violation("TOY-SUM", "sum"); }
+}
 static void guard_user(void*) { vs_work(w1); if (use_static() != 42) vs_violation("TOY-GUARD", "static not initialised"); }
 void h_run(Case& c) {
     std::string kind = split_ws(c.lines[0])[1]; v = (int)kvl(c.lines[0], "v", 0); auto ws = split_ws(c.lines[0]); w0 = atoi(ws[ws.size() - 2].c_str() + 1); w1 = atoi(ws.back().c_str() + 1);
@@ -37,6 +44,7 @@ void h_run(Case& c) {
         vs_thread_join(t);
     }
     else if (kind == "ticket") { int a = vs_thread_start(locker, (void*)1), b = vs_thread_start(locker, (void*)2); locker((void*)0); vs_thread_join(a); vs_thread_join(b); }
+    else if (kind == "probe") { for (int i = 0; i < 4; i++) tab[i].store(i + 1); if (!v) big = new std::atomic<int>[300000](); int a = vs_thread_start(prober, nullptr); vs_work(w0); vs_thread_join(a); }
     else if (kind == "guard") { int a = vs_thread_start(guard_user, nullptr); vs_work(w0); guard_user(nullptr); vs_thread_join(a); }
     vs_end(); vs_stat_add("nt", 1); vs_ok();
 }
